@@ -88,7 +88,9 @@ def instance(rng, depth, pool):
         r.kv = {"k%d" % i: sub() for i in range(rng.randrange(3))}
         return r
     if k == 4:
-        return verif_nat.NewArgs(sub(), key=sub())
+        # cls.__new__(cls, *args, **kwargs) takes any text as a keyword name: identifiers, reserved words, names that
+        # are not identifiers, and a name whose NFKC normal form is a different identifier
+        return verif_nat.NewArgs(sub(), **{rng.choice(["key", "key", "content-type", "class", "a b", "\ufb01"]): sub()})
     if k == 5:
         return verif_nat.NewArgsPos(sub(), sub())
     if k == 6:
